@@ -74,6 +74,8 @@ class Gen:
         comps = COMP_POOL[:ncomp] if r.random() < 0.7 else r.sample(COMP_POOL, ncomp)
         inf = [c for c in comps if c in ("I", "E") and r.random() < 0.8] or [comps[-1]]
         inf = inf[: r.randint(1, 2)]
+        if len(inf) == 2 and r.random() < 0.5:
+            inf = inf[::-1]        # the infectious compartments need not be listed in the order of the compartments
         nsteps = want.get("nsteps", r.choice([1, 2, 3, 4]))
         h = want.get("h", r.choice(["1", "1/2", "1/4", "2", "3/8"]))
         t0 = want.get("t0", r.choice(["0", "0", "1", "-2", "5/2"]))
@@ -348,8 +350,10 @@ class Gen:
             if others and r.random() < 0.5:
                 o_ = r.choice(others)
                 filt = {o_: r.choice(strat_strata[o_])}
-            ops.append({"op": "rebalance", "strat": sname, "filt": filt,
-                        "props": {s: str(p) for s, p in zip(strata, props)}})
+            pitems = [(s, str(p)) for s, p in zip(strata, props)]
+            if r.random() < 0.5:
+                r.shuffle(pitems)        # the proportions need not be written in the order of the strata
+            ops.append({"op": "rebalance", "strat": sname, "filt": filt, "props": dict(pitems)})
             meta["strats"].append("rebalance")
         # derived output requests
         reqs = []
@@ -402,6 +406,8 @@ class Gen:
             if used and r.random() < 0.4:
                 u = r.choice(used)
                 filt = {u: r.choice(strat_strata[u])}
+                if u == "age" and "15" in strat_strata[u] and r.random() < 0.5:
+                    filt = {u: "15"}      # a stratum whose label contains another one ("5")
             if c < 0.3 or not names:
                 if r.random() < 0.5 and flow_names:
                     rq = {"type": "flow", "flow_name": r.choice(flow_names), "raw": r.random() < 0.5}
